@@ -15,6 +15,16 @@ var generators = map[string]genFn{
 	"basic": genBasic,
 	"stoppoints": genStopPoints,
 	"conn": genConn,
+	"faults": genFaults,
+	"health": genHealth,
+	"tamper": genTamper,
+	"takeover": genTakeover,
+	"vacancy": genVacancy,
+	"takeoverstop": genTakeoverStop,
+	"stoptimeout": genStopTimeout,
+	"spin": genSpin,
+	"slowhb": genSlowHB,
+	"healthrace": genHealthRace,
 }
 
 type scenOut struct {
@@ -64,6 +74,19 @@ func checkTraces(rep *Report, outs []scenOut) error {
 			}
 			fd := Finding{Property: f[0], Clause: f[1], Input: o.sc.JSON(), Detail: f[3] + " @event " + f[2], Impl: ctx}
 			switch f[0] {
+			case "ACC":
+				rep.hit("acc:" + f[1] + ":" + map[bool]string{true: "accepted", false: "rejected"}[f[2] == "0"])
+				if f[2] != "0" {
+					var k int
+					fmt.Sscanf(f[2], "%d", &k)
+					rep.diff(Finding{Property: "ACC:" + f[1], Clause: "trace-not-accepted-by-model", Input: o.sc.JSON(),
+						Detail: f[3] + " @event " + f[2], Impl: traceContext(o.res.Trace, k)})
+				}
+			case "COV":
+				var n int
+				fmt.Sscanf(f[2], "%d", &n)
+				rep.Dist["trigger:"+f[1]] += n
+				rep.nontrivial(o.sc.Name + "|" + f[1])
 			case "STORE", "TRACE":
 				fd.Property = "*"
 				rep.diff(fd)
@@ -169,7 +192,6 @@ func runScenarioMode(t *testing.T, mode string, rep *Report, rng *rand.Rand, n i
 			res := runScenario(t, sc)
 			outs = append(outs, scenOut{sc, res})
 			rep.Cases++
-			rep.nontrivial(sc.Name)
 			if k < 2 {
 				rep.sample(sc.JSON())
 			}
